@@ -219,6 +219,24 @@ func TestVerifC07Websocket(t *testing.T) {
 		}
 	}
 	fams := []*vC07Fam{
+		{name: "ws-big-frame-then-small", dec: "ws.client", build: func(n int) []byte {
+			l := n / 2
+			out := []byte{0x82, 127, 0, 0, 0, 0, byte(l >> 24), byte(l >> 16), byte(l >> 8), byte(l)}
+			out = append(out, make([]byte, l)...)
+			for len(out)+2 <= n {
+				out = append(out, 0x82, 0)
+			}
+			return out
+		}},
+		{name: "ws-big-fragment-then-small-fragments", dec: "ws.client", build: func(n int) []byte {
+			l := n / 2
+			out := []byte{0x02, 127, 0, 0, 0, 0, byte(l >> 24), byte(l >> 16), byte(l >> 8), byte(l)}
+			out = append(out, make([]byte, l)...)
+			for len(out)+5 <= n {
+				out = append(out, 0x00, 1, 0x61)
+			}
+			return append(out, 0x80, 0)
+		}},
 		{name: "ws-dense-empty-binary", dec: "ws.client", build: dense([]byte{0x82, 0})},
 		{name: "ws-dense-pings", dec: "ws.client", build: dense([]byte{0x89, 0})},
 		{name: "ws-dense-fragments", dec: "ws.client", build: func(n int) []byte {
